@@ -15,7 +15,9 @@ holding the characters other tools take for line ends; also after the parser
 rejected another text in the same process -- the history family); (5) every V_VAR is
 related (R823) to the block that declares it; (6) R820 / R848 data types equal
 the OAL types for the cases the property enumerates (also with the keywords
-of the program in UPPER / Capitalised spelling), and they ARE the data types
+of the program in UPPER / Capitalised spelling; also for attributes, parameters
+and return values declared with user data types, one of them two levels above
+its core type: the declared type, not the core type), and they ARE the data types
 visible from the home: in the components family the host has three components
 declaring classes, associations, functions, an external entity and operations
 of the same names with other types, the homes being in the middle one.
@@ -39,6 +41,12 @@ ASSUMPTIONS = C05.ASSUMPTIONS[2:] + [
     '(the type of the value first assigned; relative to the observed type of that value when its own type is not claimed), attribute and '
     'parameter reads, instance and instance-set selections, self, and additionally invocations (declared return type), enumerators and '
     'constants; arithmetic results, array element accesses and `selected` are not claimed',
+    'user data types: a read of an attribute or parameter declared with a user data type and the value of an invocation returning one '
+    'carry exactly that type (not the core type underneath), a transient whose FIRST assignment is such a value is declared with it '
+    '(R848), and so are its l-value and every later read of it (R820) -- also when it is later assigned a core-typed value; a variable '
+    'first assigned a core-typed value keeps the core type when a value of a user data type is assigned later.  Arithmetic over such '
+    'operands stays unclaimed (the translation gives it the type of the left operand); comparisons over them are boolean.  A copy of a '
+    'variable whose type is not claimed is not claimed either (relative to the observed type)',
     'the block of the implicit variable self is not claimed (no statement declares it)',
     'positions are checked under three layouts: one line with single spaces; a line break plus indentation after every ";"; and '
     '"remarks": several lines with block comments and "//" comments in front of, behind and between the tokens of the statements, '
@@ -228,6 +236,8 @@ def run(ctx):
     ctx.require(ctx.n('family:refchain') >= 100 and ctx.notes['refchain_second_level'] >= 50,
                 'refchain family: %d programs, %d of them read the second-level referential attribute'
                 % (ctx.n('family:refchain'), ctx.notes['refchain_second_level']))
+    ctx.require(ctx.n('usertype_checks') >= 5000, 'too few values / variables expected to carry a user data type were compared (%d)'
+                % ctx.n('usertype_checks'))
     nh = len(H.histories())
     ctx.require(ctx.n('history_runs') >= 20 * nh and ctx.n('history_not_judged') == 0 or ctx.caps_hit,
                 'history family: %d runs judged, %d not judged (%d histories)' % (ctx.n('history_runs'), ctx.n('history_not_judged'), nh))
@@ -320,6 +330,7 @@ def coverage(ctx):
                                           'B), which refers across R1 to A.Id; with the O_REF / O_RTIDA / O_OIDA instances of both',
                              programs=ctx.n('family:refchain'), reading_the_second_level_attribute=ctx.notes.get('refchain_second_level'),
                              read_through=['typed handle', 'self', 'selected', 'loop variable', 'handle assigned from a handle', 'created instance']),
+        user_data_types=dict(types=dict(H.USER_TYPES), values_and_variables_expected_to_carry_one=ctx.n('usertype_checks')),
         remarks_layout=dict(families_quick=REMARK_FAMILIES, programs=ctx.n('layout:remarks'),
                             characters=[hex(ord(c)) for c in H.ODD_CHARACTERS + '\r'], characters_placed=ctx.n('remark_characters')),
         joined_layout=dict(families_quick=JOINED_FAMILIES, programs=ctx.n('layout:joined'), gaps_behind_a_statement=H.JOINED_GAPS,
